@@ -1,5 +1,6 @@
 //! Bounded stand-in for the e-graph level clause of C01 (reported equalities are implied by the asserted ones) — NOT a proof.
 //! host: src/egraph/mod.rs
+//! functions: EGraph::eq
 //! Oracle: a model.  Terms over var / add / mul / sub / neg / zero / one are polynomials over the field Z/1000003; every
 //! union the harness asserts is an instance of a ring law (commutativity, associativity, distributivity, x*0 = 0,
 //! x+0 = x, x-x = 0, x*1 = x, -(-x) = x, x + (-x) = 0), so every asserted equation holds in the model, and so does
